@@ -126,8 +126,28 @@ def dtableToJson (t : DTable) : Json :=
        ("fks", Json.arr (t.fks.map (fun f => obj [("name", f.name), ("cols", strs f.cols), ("reftable", f.reftable),
             ("refcols", strs f.refcols), ("ondelete", optStr (normAct f.ondelete)), ("onupdate", optStr (normAct f.onupdate))])).toArray)]
 
+def paramsToJson (p : G.Params) : Json :=
+  obj [("token0", p.token0), ("tokens", strs p.tokens), ("args", strs p.args),
+       ("kwargs", Json.arr (p.kwargs.map (fun kv => strs [kv.1, kv.2])).toArray)]
+
+def extOfJson (j : Json) : Option String × Option String :=
+  match j with
+  | .arr a => (a[0]?.bind asStr?, a[1]?.bind asStr?)
+  | _ => (none, none)
+
 def handle (op : String) (j : Json) : Option Json :=
   match op with
+  | "diff.cmptype_g" =>
+    match getStr j "insp", getStr j "meta" with
+    | some it, some mt =>
+      let syn := (getArr j "syn").map asStrList
+      let ext := (getArr j "ext").map extOfJson
+      let ip := G.tokenize it
+      let mp := G.tokenize mt
+      some (obj [("itok", paramsToJson ip), ("mtok", paramsToJson mp),
+                 ("cmp", Json.bool (G.compareType syn ext ip mp)),
+                 ("must", Json.bool (mustDiffer syn ip mp))])
+    | _, _ => some (errJ "bad-input")
   | "diff.type" =>
     match tyOfJson j with
     | some t =>
